@@ -16,7 +16,9 @@ import json
 import sys
 
 from harness import c03_util as U
-from harness.common import VERIF, Check
+from harness.common import REPO, VERIF, Check
+from translator import c03_extract
+from translator.py2coq import Untranslatable
 
 HEADER = ('From Coq Require Import ZArith List String.\nFrom AV Require Import model.C03_Model.\n'
           'Import ListNotations.\n')
@@ -27,6 +29,24 @@ SIG_UNSET_STR = 'unset-optional-string-reads-back-empty'
 SIG_ZERO_LEN = 'zero-length-trajectory-unreadable'
 SIG_TP_STR = 'pointwise-string-field-unwritable'
 SIG_STR_HOLE = 'unset-string-entry-before-a-set-one-hdf-error'
+
+
+def extract(chk: Check):
+    """translator tie: regenerate the dispatch tables / flags of the writer and reader from the source, prove them
+    equal to the model's (link/C03_Link.v).  Returns True / False (tree repaired / as coded) or None (no tie)."""
+    name = 'extract:trajectories/store.py:_write_to_nc_var,_read_from_nc_var,_create_dimensions,call sites'
+    try:
+        facts = c03_extract.extract_facts(REPO / 'src')
+    except Untranslatable as e:
+        chk.obligations.append({'name': name, 'ok': False})
+        chk.broken(name, str(e))
+        return None
+    chk.obligations.append({'name': name, 'ok': True})
+    if chk.coq_compile_gen('C03_Extracted', c03_extract.coq_text(facts)) is None:
+        return None
+    if not chk.coq_link('C03_Link.v'):
+        return None
+    return facts.repaired
 
 
 def detect_fixed(chk: Check) -> bool:
@@ -86,6 +106,12 @@ def classify_refusal(case, run, fixed):
     _, phase, k, cls, msg = run.outcome
     tj = case['trajs'][k] if k < len(case['trajs']) else None
     has_tp_str = any(f['shape'] == 'TP' and f['dtype'] == 'str' for fs in case['sets'] for f in fs['fields'])
+    if phase == 0:
+        # refused when the field set is DEFINED (after the repair of F-C03c per-point string fields cannot be
+        # registered at all): a refusal by name, before anything is stored
+        if has_tp_str and cls == 'EValue' and 'str' in msg and 'point' in msg:
+            return False, None, 'per-point string field refused by name at definition'
+        return True, None, f'field set definition raised {msg}'
     if cls == 'EAttr' and "has no attribute 'size'" in msg and has_tp_str:
         return True, SIG_TP_STR, 'a per-point string field cannot be written'
     if case.get('out_of_dim') and cls == 'EValue' and 'species dimension' in msg and k == len(case['trajs']) - 1:
@@ -259,8 +285,8 @@ def check_cases(chk: Check, cases, fixed: bool):
                                   'written': run.written[k][str(i)][j] if j >= 0 else None,
                                   'read': rd[1][str(i)][j] if j >= 0 else None}, signature=sig)
                     unexplained |= r != 'known'
-        if unexplained or mo is None:
-            continue
+        if unexplained or mo is None or (run.outcome[0] == 'Refused' and run.outcome[1] == 0):
+            continue                  # (nothing reached the store: the model has nothing to say)
         # ---- correspondence with the model ----
         iv = flatten_reads(run)
         try:
@@ -297,7 +323,8 @@ def load_corpus(chk):
 def spot_check_fill_values(chk: Check):
     """The fill constants of the Coq model are the library's."""
     import struct
-    want = {'int32': -2147483647, 'int64': -9223372036854775806,
+    want = {'int8': -127, 'int16': -32767, 'uint8': 255, 'uint16': 65535, 'uint32': 4294967295,
+            'uint64': 18446744073709551614, 'int32': -2147483647, 'int64': -9223372036854775806,
             'float32': struct.unpack('<f', struct.pack('<I', 2096103424))[0],
             'float64': struct.unpack('<d', struct.pack('<Q', 5160562223013167104))[0], 'str': ''}
     got = {d: U.fill_value(d) for d in want}
@@ -338,6 +365,7 @@ def per_trajectory_string_hole(chk: Check):
             for name, v in vals.items():
                 setattr(t, name, v)
             t.name = None if k < 515 else f'n{k}'
+            t.n_taxi_origin = None if k < 515 else k       # an optional NUMERIC field over the same chunk boundary
             ts.add(t)
     bad = []
     with TrajectoryStore.open(base_file=path) as ts:
@@ -349,6 +377,8 @@ def per_trajectory_string_hole(chk: Check):
                     bad.append((k, 'per-point values differ', None))
                 elif got != want and not (want is None and got == ''):
                     bad.append((k, f'name {got!r} instead of {want!r}', None))
+                elif ts[k].n_taxi_origin != (None if k < 515 else k):
+                    bad.append((k, f'optional int32 field reads {ts[k].n_taxi_origin!r}', None))
             except Exception as e:  # noqa: BLE001
                 sig = SIG_STR_HOLE if (U.err_class(e) == 'EHdf' and k < 512) else None
                 bad.append((k, f'{type(e).__name__}: {e}', sig))
@@ -360,6 +390,102 @@ def per_trajectory_string_hole(chk: Check):
                  {'special': 'per_trajectory_string_hole', 'trajectory': k}, signature=sig)
 
 
+def two_open_stores(chk: Check):
+    """Two stores over the same field set, with different species, OPEN AT THE SAME TIME: adds alternate between
+    them, then both are reopened together and read alternately.  Oracle only (each store on its own is what the
+    model describes): state shared between store objects shows here."""
+    import numpy as np
+    from AEIC.performance.types import ThrustModeValues
+    from AEIC.storage import Dimensions, FieldMetadata, FieldSet
+    from AEIC.trajectories import TrajectoryStore
+    from AEIC.trajectories.trajectory import Trajectory
+    from AEIC.types import Species, SpeciesValues
+    name = f'c03two_{chk.seed}'
+    flds = [{'shape': 'TS', 'dtype': 'float64', 'req': True}, {'shape': 'TSP', 'dtype': 'int16', 'req': True},
+            {'shape': 'TM', 'dtype': 'float32', 'req': False}, {'shape': 'TSM', 'dtype': 'uint8', 'req': True}]
+    fn = [f'{name}_f{j}' for j in range(len(flds))]
+    if not FieldSet.known(name):
+        FieldSet(name, **{fn[j]: FieldMetadata(dimensions=Dimensions.from_abbrev(f['shape']),
+                                               field_type=U.np_dtype(f['dtype']), description='two', units='u',
+                                               required=f['req']) for j, f in enumerate(flds)})
+    bf = U.base_fields()
+    sp = list(Species)
+    pools = {'A': [sp[0], sp[4], sp[11]], 'B': [sp[1]]}
+    paths = {k: chk.tmp / f'{name}_{k}.nc' for k in pools}
+
+    def make(tag, k):
+        n = 3 + k + (10 if tag == 'B' else 0)
+        t = Trajectory(n, fieldsets=[name])
+        tj = {'n': n, 'base': {'seed': 100 * k + ord(tag), 'flight_id': None, 'name': f'{tag}{k}',
+                               'unset_phases': False, 'scal': [float(k), 2.0], 'phases': [k] * 9}}
+        for nm, v in U.base_values(tj, bf).items():
+            setattr(t, nm, v)
+        pool = pools[tag] if k % 2 == 0 else pools[tag][:1]
+        setattr(t, fn[0], SpeciesValues({s: float(k) + 0.5 + i for i, s in enumerate(pool)}))
+        setattr(t, fn[1], SpeciesValues({s: U.make_array(7 * k + i, n, 'int16') for i, s in enumerate(pool)}))
+        setattr(t, fn[2], None if k == 1 else ThrustModeValues(1.0 + k, 2.0, 3.0, 4.5))
+        setattr(t, fn[3], SpeciesValues({s: ThrustModeValues(*[np.uint8(k + i + m) for m in range(4)])
+                                         for i, s in enumerate(pool)}))
+        return t
+    added = {k: [] for k in pools}
+    stores = {k: TrajectoryStore.create(base_file=paths[k]) for k in pools}
+    bad = []
+    try:
+        for k in range(3):
+            for tag in ('A', 'B'):
+                t = make(tag, k)
+                try:
+                    stores[tag].add(t)
+                except Exception as e:  # noqa: BLE001
+                    bad.append(f'store {tag}: trajectory {k} could not be added: {type(e).__name__}: {e}')
+                    break
+                added[tag].append(t)
+            if bad:
+                break
+    finally:
+        for st in stores.values():
+            try:
+                st.close()
+            except Exception:  # noqa: BLE001
+                pass
+    if bad:
+        for p in paths.values():
+            if p.exists():
+                p.unlink()
+        chk.case({'kind': 'two-open-stores'}, nontrivial=True)
+        chk.fail(f'two stores open at the same time: {bad[0]}', {'special': 'two_open_stores'}, signature=None)
+        return
+    stores = {k: TrajectoryStore.open(base_file=paths[k]) for k in pools}
+    try:
+        for k in (2, 0, 1):
+            for tag in ('B', 'A'):
+                try:
+                    r = stores[tag][k]
+                except Exception as e:  # noqa: BLE001
+                    bad.append(f'store {tag}, trajectory {k}: {type(e).__name__}: {e}')
+                    continue
+                w = added[tag][k]
+                if len(r) != len(w) or r.name != w.name:
+                    bad.append(f'store {tag}, trajectory {k}: another trajectory came back ({r.name!r}, {len(r)} points)')
+                for j, f in enumerate(flds):
+                    d = U.compare_field(getattr(w, fn[j]), r._data[fn[j]], f)
+                    if d:
+                        bad.append(f'store {tag}, trajectory {k}, {f["shape"]} {f["dtype"]}: {", ".join(d)}')
+                for nm, f in bf:
+                    if f['shape'] == 'TP' and U.compare_field(getattr(w, nm), getattr(r, nm), f):
+                        bad.append(f'store {tag}, trajectory {k}, base field {nm}: value differs')
+    finally:
+        for st in stores.values():
+            st.close()
+        for p in paths.values():
+            if p.exists():
+                p.unlink()
+    chk.case({'kind': 'two-open-stores', 'species': {k: [s.name for s in v] for k, v in pools.items()}}, nontrivial=True)
+    chk.count('special:two-open-stores')
+    for why in bad:
+        chk.fail(f'two stores open at the same time: {why}', {'special': 'two_open_stores'}, signature=None)
+
+
 def run(chk: Check):
     pin_hash_seed()
     chk.rule = ('stores of 1-3 trajectories (lengths 0, 1, 2-20, 21-300) with 1-3 freshly registered field sets of 1-5 '
@@ -369,7 +495,8 @@ def run(chk: Check):
                 'always closed and reopened before reading; non-trivial = some species-indexed field whose species '
                 'are not an initial segment of the enum or differ from the file\'s species dimension, or an unset '
                 'optional field')
-    chk.trusted += ['harness/c03.py + c03_util.py: generators, independent comparer, Coq encoding of cases',
+    chk.trusted += ['translator/c03_extract.py (writer / reader dispatch tables, species sources, call sites -> code_facts)',
+                    'harness/c03.py + c03_util.py: generators, independent comparer, Coq encoding of cases',
                     'netCDF4/HDF5: returns the elements of an array it was given (arrays are opaque tokens in the '
                     'model; the comparer checks the elements); unwritten entries read as the default fill value, '
                     'empty string or empty array (spot-checked)']
@@ -383,21 +510,36 @@ def run(chk: Check):
                         'numeric']
     chk.coq_props('props/C03_Props.v')
     spot_check_fill_values(chk)
+    extracted = extract(chk)
     fixed = detect_fixed(chk)
+    if extracted is not None and extracted != fixed:
+        chk.broken('extract-vs-probe', f'the source reads as {"repaired" if extracted else "as coded"} but the probe store '
+                                       f'behaves as {"repaired" if fixed else "as coded"}')
     chk.notes['tree_behaviour'] = 'repaired (species by file position, unwritten entries skipped)' if fixed else \
         'as coded before the repair of F2 (species by enum position)'
     print(f'[C03] tree behaviour: {chk.notes["tree_behaviour"]}', file=sys.stderr)
     corpus = load_corpus(chk)
     for k, c in enumerate(corpus):
         c['uid'] = f'c03c{chk.seed}_{k}'
-    cases = corpus + [U.gen_case(chk.rng, f'c03s{chk.seed}_{k}') for k in range(chk.n(120, 1500))]
+    cases = list(corpus)
+    for k in range(chk.n(120, 1500)):
+        c = U.gen_case(chk.rng, f'c03s{chk.seed}_{k}')
+        cases.append(c)
+        if chk.rng.random() < 0.15 and not any(f['shape'] == 'TP' and f['dtype'] == 'str'
+                                               for fs in c['sets'] for f in fs['fields']):
+            # a second store of the same process over the SAME registered field sets, with other species and
+            # another layout (state kept per field set or per class instead of per store shows here)
+            cases.append(U.gen_case(chk.rng, f'c03s{chk.seed}_{k}b', force={'sets': c['sets'], 'fs_uid': c['uid']}))
+            chk.count('special:second-store-same-field-sets')
     check_cases(chk, cases, fixed)
     per_trajectory_string_hole(chk)
+    two_open_stores(chk)
 
 
 def replay(chk: Check, rp):
     pin_hash_seed()
     chk.coq_props('props/C03_Props.v')
+    extract(chk)
     fixed = detect_fixed(chk)
     case = (rp.get('case') or {}).get('case')
     if case:
@@ -405,3 +547,5 @@ def replay(chk: Check, rp):
         check_cases(chk, [case], fixed)
     elif (rp.get('case') or {}).get('special') == 'per_trajectory_string_hole':
         per_trajectory_string_hole(chk)
+    elif (rp.get('case') or {}).get('special') == 'two_open_stores':
+        two_open_stores(chk)
